@@ -192,6 +192,23 @@ def run(rep):
                 rep.violation("goderive failed on a package whose derive calls are all supported (exit %s%s): %s" % (
                     rc, ", timeout" if to else "", err[-600:]), {"program": "sites", "random_files": files, "seed_round": r}, True)
                 continue
+            # the same tree once more for the package that is written for -autoname (its source files are rewritten)
+            rc2, err2, to2 = common.run_goderive(binp, d, ["-autoname", "./auton"], timeout=300, mem_gb=8)
+            rep.cov["programs"] += 1
+            srcs = {f: open(os.path.join(d, "auton", f)).read() for f in sorted(os.listdir(os.path.join(d, "auton"))) if f != "derived.gen.go"}
+            if rc2 != 0 or to2:
+                rep.violation("goderive -autoname failed on a package whose derive calls are all supported (exit %s%s): %s" % (
+                    rc2, ", timeout" if to2 else "", err2[-600:]), {"program": "sites/auton", "flags": ["-autoname"], "files": srcs}, True)
+                shutil.rmtree(os.path.join(d, "auton"))
+            else:
+                p2 = common.sh(["go", "vet", "./auton"], cwd=d, timeout=900)
+                if p2.returncode != 0:
+                    rep.violation("package + derived.gen.go do not type-check after -autoname: " + p2.stderr[:900],
+                                  {"program": "sites/auton", "flags": ["-autoname"], "files": srcs, "vet": p2.stderr[:3000]}, True)
+                    shutil.rmtree(os.path.join(d, "auton"))
+                else:
+                    n2 = len(re.findall(r"^func ", open(os.path.join(d, "auton", "derived.gen.go")).read(), flags=re.M))
+                    rep.cov["evaluations"] += n2
             p = common.sh(["go", "vet", "./..."], cwd=d, timeout=900)
             gen = open(os.path.join(d, "p", "derived.gen.go")).read()
             nfuncs = len(re.findall(r"^func ", gen, flags=re.M))
@@ -244,6 +261,7 @@ def iso_part(rep, binp, rng, root):
     instantiate(d, rng, 0)
     shutil.rmtree(os.path.join(d, "p"))
     shutil.rmtree(os.path.join(d, "pend"))
+    shutil.rmtree(os.path.join(d, "auton"))
     files, meta = gen_iso(rng, 160 if rep.tier == "quick" else 0)
     for rel, src in files.items():
         os.makedirs(os.path.dirname(os.path.join(d, rel)), exist_ok=True)
